@@ -935,11 +935,122 @@ def gen_encconst(repo):
     out.append('end Flac.Gen')
     return '\n'.join(out) + '\n'
 
+def gen_meta(repo):
+    """metadata constants and shape-checked facts (metadata/mod.rs, metadata/cuesheet.rs)"""
+    meta = ' '.join(strip_comments(open(os.path.join(repo, 'src/metadata/mod.rs')).read()).split())
+    cue = ' '.join(strip_comments(open(os.path.join(repo, 'src/metadata/cuesheet.rs')).read()).split())
+    out = ['/- GENERATED by tools/translate.py from src/metadata/mod.rs and src/metadata/cuesheet.rs — do not edit -/', 'namespace Flac.Gen', '']
+    def need(text, pat, what):
+        m = re.search(pat, text)
+        if not m:
+            raise ExtractError(f'{what}: expected shape not found')
+        return m
+    def flag(name, doc, yes, no, what):
+        """yes/no are literal fragments (or lists of fragments) of the normalised source"""
+        ys = yes if isinstance(yes, list) else [yes]
+        ns = no if isinstance(no, list) else [no]
+        src = meta + ' ' + cue
+        if all(y in src for y in ys):
+            v = 'true'
+        elif all(x in src for x in ns):
+            v = 'false'
+        else:
+            raise ExtractError(f'{what}: neither known shape found')
+        out.append(f'/-- {doc} -/\ndef {name} : Bool := {v}\n')
+    # block type codes
+    body = need(meta, r'pub enum BlockType \{(.*?)\}', 'BlockType').group(1)
+    codes = re.findall(r'(\w+) = (\d+),', body)
+    if [c for c, _ in codes] != ['Streaminfo', 'Padding', 'Application', 'SeekTable', 'VorbisComment', 'Cuesheet', 'Picture']:
+        raise ExtractError('BlockType: variants changed')
+    out.append('/-- `BlockType` discriminants, in declaration order -/\ndef blockTypeCodes : List Nat := [' + ', '.join(v for _, v in codes) + ']\n')
+    rd = need(meta, r'impl FromBitStream for BlockType \{.*?match r\.read::<7, u8>\(\)\? \{(.*?)\} \}', 'BlockType::from_reader').group(1)
+    arms = re.findall(r'(\d+) => Ok\(Self::(\w+)\)', rd)
+    if [(v, c) for c, v in codes] != arms:
+        raise ExtractError('BlockType::from_reader: arms differ from the discriminants')
+    m = need(rd, r'(\d+)\.\.=(\d+) => Err\(Error::ReservedMetadataBlock\), _ => Err\(Error::InvalidMetadataBlock\)', 'BlockType reserved range')
+    out.append(f'def blockTypeReservedLo : Nat := {m.group(1)}\ndef blockTypeReservedHi : Nat := {m.group(2)}\n')
+    m = need(meta, r'pub const ZERO: BlockSize = BlockSize\(0\); const MAX: u32 = \(1 << (\d+)\) - 1;', 'BlockSize::MAX')
+    out.append(f'/-- `BlockSize::MAX` -/\ndef blockSizeMax : Nat := 2 ^ {m.group(1)} - 1\n')
+    need(meta, r'const SIZE: BlockSize = BlockSize\(\(1 \+ 7 \+ 24\) / 8\);', 'BlockHeader::SIZE')
+    m = need(meta, r'pub const MAX_POINTS: usize = \(1 << (\d+)\) / \(\(64 \+ 64 \+ 16\) / 8\);', 'SeekTable::MAX_POINTS')
+    out.append(f'def seekTableMaxPoints : Nat := 2 ^ {m.group(1)} / 18\n')
+    need(meta, r'match \(size\.get\(\) / 18, size\.get\(\) % 18\) \{ \(p, 0\) =>', 'SeekTable::from_reader size rule')
+    # picture types
+    pt = need(meta, r'impl FromBitStream for PictureType \{.*?match r\.read_to::<u32>\(\)\? \{(.*?)_ => Err\(Error::InvalidPictureType\)', 'PictureType::from_reader').group(1)
+    nums = [int(x) for x in re.findall(r'(\d+) => Ok\(Self::\w+\)', pt)]
+    if nums != list(range(len(nums))):
+        raise ExtractError('PictureType: codes are not 0..n')
+    out.append(f'/-- picture type codes 0..=this are defined -/\ndef pictureTypeMax : Nat := {nums[-1]}\n')
+    m = need(meta, r'picture_type: PictureType::Png32x32, \.\. \}\)\)\) => \{ if !self\.png_read', 'reader png rule')
+    # cue sheet constants
+    m = need(meta, r'const LEAD_IN: u64 = (\d+) \* (\d+);', 'Cuesheet::LEAD_IN')
+    out.append(f'def cueLeadIn : Nat := {int(m.group(1)) * int(m.group(2))}\n')
+    m = need(meta, r'const CATALOG_LEN: usize = (\d+);', 'Cuesheet::CATALOG_LEN')
+    out.append(f'def cueCatalogLen : Nat := {m.group(1)}\n')
+    m = need(meta, r'tracks: contiguous::Contiguous<(\d+), cuesheet::TrackCDDA>', 'CDDA track capacity')
+    out.append(f'def cueCddaTrackMax : Nat := {m.group(1)}\n')
+    m = need(meta, r'tracks: contiguous::Contiguous<(\d+), cuesheet::TrackNonCDDA>', 'non-CDDA track capacity')
+    out.append(f'def cueNonCddaTrackMax : Nat := {m.group(1)}\n')
+    m = need(cue, r'pub type TrackCDDA = Track<CDDAOffset, NonZero<u8>, IndexVec<(\d+), CDDAOffset>>;', 'TrackCDDA')
+    out.append(f'def cueCddaIndexMax : Nat := {m.group(1)}\n')
+    m = need(cue, r'pub type TrackNonCDDA = Track<u64, NonZero<u8>, IndexVec<(\d+), u64>>;', 'TrackNonCDDA')
+    out.append(f'def cueNonCddaIndexMax : Nat := {m.group(1)}\n')
+    m = need(meta, r'\.checked_sub\(1\) \.filter\(\|c\| \*c <= (\d+)\) \.ok_or\(Error::from\(CuesheetError::NoTracks\)\)', 'CDDA reader track count')
+    out.append(f'/-- CD-DA reader: `track_count - 1` may be at most this -/\ndef cueCddaReadTrackLimit : Nat := {m.group(1)}\n')
+    m = need(cue, r'const SAMPLES_PER_SECTOR: u64 = (\d+) / (\d+);', 'SAMPLES_PER_SECTOR')
+    out.append(f'def cueSector : Nat := {int(m.group(1)) // int(m.group(2))}\n')
+    m = need(cue, r'pub const CDDA: NonZero<u8> = NonZero::new\((\d+)\)\.unwrap\(\);', 'LeadOut::CDDA')
+    out.append(f'def cueLeadOutCdda : Nat := {m.group(1)}\n')
+    m = need(cue, r'pub const NON_CDDA: NonZero<u8> = NonZero::new\((\d+)\)\.unwrap\(\);', 'LeadOut::NON_CDDA')
+    out.append(f'def cueLeadOutNonCdda : Nat := {m.group(1)}\n')
+    need(meta, r'r\.skip\(7 \+ 258 \* 8\)\?; let track_count: u8 = r\.read_to\(\)\?;', 'cue sheet header padding')
+    if cue.count('r.skip(6 + 13 * 8)?;') != 4 or cue.count('w.pad(6 + 13 * 8)?;') != 4:
+        raise ExtractError('cue sheet track padding changed')
+    if cue.count('r.skip(3 * 8)?;') != 2 or cue.count('w.pad(3 * 8)') != 2:
+        raise ExtractError('cue sheet index padding changed')
+    # MM:SS:FF
+    m = need(cue, r'let ff: u64 = ff\.parse\(\)\.ok\(\)\.filter\(\|ff\| \*ff < (\d+)\)\.ok_or\(\(\)\)\?; let ss: u64 = ss\.parse\(\)\.ok\(\)\.filter\(\|ss\| \*ss < (\d+)\)\.ok_or\(\(\)\)\?; let mm: u64 = mm\.parse\(\)\.map_err\(\|_\| \(\)\)\?;', 'CDDAOffset::from_str fields')
+    out.append(f'def cueFramesPerSecond : Nat := {m.group(1)}\ndef cueSecondsPerMinute : Nat := {m.group(2)}\n')
+    flag('cueOffsetChecked', 'does `CDDAOffset::from_str` convert with checked arithmetic (false = `(ff + ss * 75 + mm * 75 * 60) * 588` unchecked)?',
+         'mm.checked_mul(75 * 60) .and_then(|frames| frames.checked_add(ff + ss * 75)) .and_then(|frames| frames.checked_mul(588)) .map(|offset| Self { offset }) .ok_or(())',
+         'Ok(Self { offset: (ff + ss * 75 + mm * 75 * 60) * 588, })', 'CDDAOffset::from_str conversion')
+    flag('cueIsrcExact', 'does `ISRCString::from_str` require exactly 5 designation digits (false = any number of trailing digits)?',
+         '.and_then(|s| (s.len() == 5 && s.chars().all(|c| c.is_ascii_digit())).then_some(()))',
+         '.and_then(|s| s.chars().all(|c| c.is_ascii_digit()).then_some(()))', 'ISRCString::from_str')
+    need(cue, r'filter_split\(&isrc, 2, \|c\| c\.is_ascii_alphabetic\(\)\) \.and_then\(\|s\| filter_split\(s, 3, \|c\| c\.is_ascii_alphanumeric\(\)\)\) \.and_then\(\|s\| filter_split\(s, 2, \|c\| c\.is_ascii_digit\(\)\)\)', 'ISRC pattern')
+    flag('cueIndexBeforeTrackIsError', 'does the text importer refuse an index point earlier than its track\'s first index (false = it subtracts unchecked)?',
+         'if offset < *track_offset { return Err(CuesheetError::IndexPointsOutOfSequence); } cuesheet::Index { number, offset: offset - *track_offset, }',
+         'Some(track_offset) => { cuesheet::Index { number, offset: offset - *track_offset, } }', 'ParsedCuesheet::parse index arm')
+    flag('cueCatalogChecked', 'does the non-CD-DA writer refuse a catalog number longer than its field (false = it truncates)?',
+         'if catalog_number.len() > Self::CATALOG_LEN { return Err(CuesheetError::InvalidCatalogNumber.into()); }',
+         'lead_out, } => { w.write_from({ let mut number = [0; Self::CATALOG_LEN];', 'ToBitStream for Cuesheet (non-CD-DA)')
+    flag('cueAccessorsSaturate', 'do `track_offsets`, `display` and `track_byte_ranges` saturate (false = plain `+` / `*`)?',
+         ['.map(|t| u64::from(t.offset).saturating_add(u64::from(*t.index_points.start())))', '.map(|t| t.offset.saturating_add(*t.index_points.start()))',
+          'start.saturating_mul(multiplier)..end.saturating_mul(multiplier)', 'Timestamp::from(index.offset.saturating_add(track.offset))'],
+         ['.map(|t| u64::from(t.offset + *t.index_points.start()))', '.map(|t| t.offset + t.index_points.start())', 'start * multiplier..end * multiplier'],
+         'cue sheet accessors')
+    flag('metaDurationGuardsZero', 'does `Metadata::duration` return `None` for sample rate 0 (false = it divides by it)?',
+         'self.total_samples().filter(|_| sample_rate > 0).map(|s| { std::time::Duration::new( s / sample_rate,',
+         'self.total_samples().map(|s| { std::time::Duration::new( s / sample_rate,', 'Metadata::duration')
+    flag('picPngDepthWide', 'is the PNG colour depth computed in 32 bits (false = `bit_depth * n` in 8 bits)?',
+         ['2 => (u32::from(bit_depth) * 3, None)', '4 => (u32::from(bit_depth) * 2, None)', '6 => (u32::from(bit_depth) * 4, None)'],
+         ['2 => ((bit_depth * 3).into(), None)', '4 => ((bit_depth * 2).into(), None)', '6 => ((bit_depth * 4).into(), None)'], 'try_png colour depth')
+    need(meta, r'let \(color_depth, colors_used\) = match color_type \{ 0 => \(bit_depth\.into\(\), None\), 2 => .*?, 3 => \(0, NonZero::new\(plte_colors\(r\)\?\)\), 4 => .*?, 6 => .*?, _ => return Err\(InvalidPicture::Png\("invalid color type"\)\), \};', 'try_png colour types')
+    flag('picJpegDepthWide', 'is the JPEG colour depth computed in 32 bits (false = `data_precision * components` in 8 bits)?',
+         'color_depth: u32::from(data_precision) * u32::from(components),', 'color_depth: (data_precision * components).into(),', 'try_jpeg colour depth')
+    m = need(meta, r'match r\.read::<u8>\(\)\? \{ ((?:0x[0-9A-F]{2} \| )+0x[0-9A-F]{2}) => \{ let _len = r\.read::<u16>\(\)\?;', 'try_jpeg SOF markers')
+    out.append('/-- JPEG start-of-frame markers recognised by `try_jpeg` -/\ndef picJpegSof : List Nat := [' + ', '.join(str(int(x, 16)) for x in m.group(1).split(' | ')) + ']\n')
+    flag('metaUpdateFlushes', 'does the in-place path of `update_file` flush its buffered writer and report the result (false = the writer is dropped unflushed)?',
+         ['let mut w = BufWriter::new(w); write_blocks(&mut w, blocks)?; w.flush().map_err(Error::Io)', 'write_in_place(original, blocks) .map(|()| false) .map_err(E::from)'], 'write_blocks(BufWriter::new(original), blocks) .map(|()| false) .map_err(E::from)', 'update_file in-place write')
+    out.append('end Flac.Gen')
+    return '\n'.join(out) + '\n'
+
 GENERATORS = [
     ('Crc.lean', 'crc.rs CRC tables and update', gen_crc),
     ('Tables.lean', 'stream.rs header code tables', gen_tables),
     ('Kernels.lean', 'decode.rs / encode.rs arithmetic kernels', gen_kernels),
     ('EncConst.lean', 'encode.rs option ranges, limits and the declared-length checks', gen_encconst),
+    ('Meta.lean', 'metadata constants, cue sheet limits and shape-checked facts', gen_meta),
 ]
 
 def main():
